@@ -598,7 +598,19 @@ func explorerBatches(r *rand.Rand, ps int, n int) [][]gen.Step {
 	for b := 0; b < n; b++ {
 		var st []gen.Step
 		st = append(st, gen.Step{Op: "createIf", N: 0})
-		switch r.Intn(8) {
+		switch r.Intn(10) {
+		case 8: // keys of half a page to a page: leaves beginning with them give branch pages with overflow pages
+			for i := 0; i < 6+r.Intn(6); i++ {
+				st = append(st, gen.Step{Op: "put", P: []int{0}, K: &gen.K{ID: 600 + r.Intn(12), Len: ps/2 + r.Intn(ps/2)}, V: &gen.V{Seed: r.Uint32(), Len: r.Intn(60)}})
+			}
+			st = append(st, gen.Step{Op: "del", P: []int{0}, K: &gen.K{ID: 600 + r.Intn(12), Len: ps / 2}})
+		case 9: // a nested bucket is filled and moved to another parent in the same transaction, and back later
+			st = append(st, gen.Step{Op: "createIf", N: 1}, gen.Step{Op: "createIf", P: []int{0}, N: 4})
+			for i := 0; i < K/2; i++ {
+				st = append(st, gen.Step{Op: "put", P: []int{0, 4}, K: &gen.K{ID: r.Intn(K)}, V: &gen.V{Seed: r.Uint32(), Len: vl / 2}})
+			}
+			st = append(st, gen.Step{Op: "move", P: []int{0}, N: 4, D: []int{1}}, gen.Step{Op: "move", P: []int{1}, N: 4, D: []int{0}})
+			st = append(st, gen.Step{Op: "move", P: []int{0}, N: 4, D: []int{1}}, gen.Step{Op: "delBucket", P: []int{1}, N: 4})
 		case 0, 1, 2: // overwrite the same keys
 			for i := 0; i < K; i++ {
 				st = append(st, gen.Step{Op: "put", P: []int{0}, K: &gen.K{ID: i}, V: &gen.V{Seed: r.Uint32(), Len: vl}})
